@@ -20,6 +20,7 @@
 package vnet
 
 import (
+	"runtime"
 	"context"
 	"errors"
 	"io"
@@ -63,6 +64,7 @@ type Options struct {
 	Hold        bool  // bytes are readable only after Release / the auto releaser
 	AutoRelease bool  // with Hold: a seeded goroutine releases bytes in random cross-stream order
 	Seed        int64 // for AutoRelease
+	YieldOnCtl  bool  // side A gives up the processor after every Write on the control stream (index 0): goroutines that write records in several pieces interleave if nothing else orders them
 	LagData     bool  // with AutoRelease: data streams lag - their bytes arrive only after the control stream (index 0) has been quiet for a while
 }
 
@@ -487,6 +489,15 @@ func (s *Stream) Read(b []byte) (int, error) {
 }
 
 func (s *Stream) Write(b []byte) (int, error) {
+	n, err := s.write(b)
+	if s.p.opts.YieldOnCtl && s.side == A && s.core.initiator == A && s.core.index == 0 {
+		runtime.Gosched()
+		time.Sleep(3 * time.Microsecond)
+	}
+	return n, err
+}
+
+func (s *Stream) write(b []byte) (int, error) {
 	p := s.p
 	p.mu.Lock()
 	defer p.mu.Unlock()
